@@ -333,6 +333,54 @@ Section Conv.
     end.
 End Conv.
 
+(* ------------------------------------------------------------------ routes to content conversion (table call_sites) *)
+(* the non-rendered filter (D_Visible, after the tag tests) precedes every step of the dispatch that produces content *)
+Fixpoint dispatch_guarded (l : list dispatch_step) : bool :=
+  match l with
+  | [] => false
+  | D_Visible :: _ => true
+  | D_Use :: _ | D_Switch :: _ | D_Group :: _ => false
+  | _ :: r => dispatch_guarded r
+  end.
+Definition internally_guarded (f : string) : bool :=
+  if String.eqb f "converter::convert_element" then dispatch_guarded elem_dispatch
+  else if String.eqb f "converter::convert_children" then dispatch_guarded elem_dispatch   (* the loop over convert_element *)
+  else if String.eqb f "converter::convert_clip_path_elements" then dispatch_guarded clip_dispatch
+  else false.
+Definition site := (string * string * site_guard)%type.
+Definition symbol_site (callee encl : string) : bool :=
+  String.eqb callee "use_node::convert_children" && String.eqb encl "use_node::convert".
+(* every caller hands f a node that passed the filter *)
+Fixpoint fn_vetted (fuel : nat) (sites : list site) (f : string) : bool :=
+  match fuel with
+  | O => false
+  | S k =>
+      forallb (fun s : site =>
+                 match s with
+                 | (callee, encl, g) =>
+                     if String.eqb callee f then
+                       match g with
+                       | SG_VisibleBefore => true
+                       | SG_OwnNode => fn_vetted k sites encl
+                       | SG_SymbolOfUse => symbol_site callee encl
+                       | SG_Internal | SG_None => false
+                       end
+                     else true
+                 end) sites
+  end.
+Definition site_safe (fuel : nat) (sites : list site) (s : site) : bool :=
+  match s with
+  | (callee, encl, g) =>
+      match g with
+      | SG_Internal => internally_guarded callee
+      | SG_VisibleBefore => true
+      | SG_SymbolOfUse => symbol_site callee encl
+      | SG_OwnNode => fn_vetted fuel sites encl
+      | SG_None => false
+      end
+  end.
+Definition routes_guarded (sites : list site) : bool := forallb (site_safe 8 sites) sites.
+
 (* ------------------------------------------------------------------ what C11 calls non-rendered content *)
 Definition is_shape_tag (t : tag) : bool := tag_in t impl_shape_tags.
 (* decidable: the element never reaches the output, whatever surrounds it *)
